@@ -184,7 +184,7 @@ def run(ctx):
     for name, _, b in scs:
         fam.setdefault(name.split("/")[0], {"scenarios": 0, "budgets": b})["scenarios"] += 1
     ctx.bounds = {"families": fam, "grid_cells": len(cells(ctx))}
-    counts = explore.explore_many(ctx, [(name, scen_consumer.make, params, bounds) for name, params, bounds in scs])
+    counts = scen_consumer.explore_chunked(ctx, [(name, scen_consumer.make, params, bounds) for name, params, bounds in scs])
     per_family = {}
     for name, n in counts.items():
         per_family[name.split("/")[0]] = per_family.get(name.split("/")[0], 0) + n
